@@ -84,6 +84,19 @@ func inc(f *felt.Felt) *felt.Felt { return new(felt.Felt).Add(f, one()) }
 
 func incV(f felt.Felt) felt.Felt { return *new(felt.Felt).Add(&f, one()) }
 
+func pow2(bits uint) *felt.Felt {
+	return new(felt.Felt).Exp(felt.NewFromUint64[felt.Felt](2), new(big.Int).SetUint64(uint64(bits)))
+}
+
+// bumpFn changes a committed felt. Every felt operator comes in two variants - lowest bit
+// and a high bit - so that a preimage built from only part of the field is noticed as well.
+type bumpFn func(*felt.Felt) *felt.Felt
+
+const (
+	feltHi  = 200 // any felt
+	priceHi = 100 // prices and fees are 128-bit quantities
+)
+
 var queryBit = new(felt.Felt).Exp(felt.NewFromUint64[felt.Felt](2), new(big.Int).SetUint64(128))
 
 // txKind names the row of Appendix A a transaction belongs to; recomputable=false for
@@ -305,6 +318,11 @@ var sliceOps = []sliceOp{
 		o[0] = incV(o[0])
 		return o
 	}},
+	{"change-first(high bit)", func(s []felt.Felt) bool { return len(s) > 0 }, func(s []felt.Felt) []felt.Felt {
+		o := append([]felt.Felt{}, s...)
+		o[0] = *new(felt.Felt).Add(&o[0], pow2(feltHi))
+		return o
+	}},
 	{"change-last", func(s []felt.Felt) bool { return len(s) > 1 }, func(s []felt.Felt) []felt.Felt {
 		o := append([]felt.Felt{}, s...)
 		o[len(o)-1] = incV(o[len(o)-1])
@@ -395,20 +413,34 @@ func (c *collector) add(op, loc string, fn func(b *chain.Blk)) {
 	c.out = append(c.out, tamper{Op: op, Loc: loc, Apply: fn, Stage: "sanity"})
 }
 
+func (c *collector) addV(op, loc string, bits uint, fn func(b *chain.Blk, bump bumpFn)) {
+	c.add(op, loc+"(+1)", func(b *chain.Blk) { fn(b, inc) })
+	hi := pow2(bits)
+	c.add(op, loc+fmt.Sprintf("(+2^%d)", bits), func(b *chain.Blk) {
+		fn(b, func(f *felt.Felt) *felt.Felt { return new(felt.Felt).Add(f, hi) })
+	})
+}
+
+// 64-bit quantities: lowest bit and bit 40
+func (c *collector) addU(op, loc string, fn func(b *chain.Blk, d uint64)) {
+	c.add(op, loc+"(+1)", func(b *chain.Blk) { fn(b, 1) })
+	c.add(op, loc+"(+2^40)", func(b *chain.Blk) { fn(b, 1<<40) })
+}
+
 func enumHeader(c *collector, s *subject, b *chain.Blk) {
 	h := b.Block.Header
-	c.add("header/block_hash", "", func(b *chain.Blk) { b.Block.Hash = inc(b.Block.Hash) })
+	c.addV("header/block_hash", "", feltHi, func(b *chain.Blk, bump bumpFn) { b.Block.Hash = bump(b.Block.Hash) })
 	if s.HasSU && !s.TxOnly {
-		c.add("state_update/block_hash", "", func(b *chain.Blk) { b.SU.BlockHash = inc(b.SU.BlockHash) })
-		c.add("state_update/new_root", "", func(b *chain.Blk) { b.SU.NewRoot = inc(b.SU.NewRoot) })
+		c.addV("state_update/block_hash", "", feltHi, func(b *chain.Blk, bump bumpFn) { b.SU.BlockHash = bump(b.SU.BlockHash) })
+		c.addV("state_update/new_root", "", feltHi, func(b *chain.Blk, bump bumpFn) { b.SU.NewRoot = bump(b.SU.NewRoot) })
 	}
-	c.add("header/number", "+1", func(b *chain.Blk) { b.Block.Number++ })
+	c.addU("header/number", "", func(b *chain.Blk, d uint64) { b.Block.Number += d })
 	if h.Number > 0 {
 		c.add("header/number", "-1", func(b *chain.Blk) { b.Block.Number-- })
 	}
-	c.add("header/parent_hash", "", func(b *chain.Blk) { b.Block.ParentHash = inc(b.Block.ParentHash) })
-	c.add("header/state_root", "", func(b *chain.Blk) { b.Block.GlobalStateRoot = inc(b.Block.GlobalStateRoot) })
-	c.add("header/transaction_count", "+1", func(b *chain.Blk) { b.Block.TransactionCount++ })
+	c.addV("header/parent_hash", "", feltHi, func(b *chain.Blk, bump bumpFn) { b.Block.ParentHash = bump(b.Block.ParentHash) })
+	c.addV("header/state_root", "", feltHi, func(b *chain.Blk, bump bumpFn) { b.Block.GlobalStateRoot = bump(b.Block.GlobalStateRoot) })
+	c.addU("header/transaction_count", "", func(b *chain.Blk, d uint64) { b.Block.TransactionCount += d })
 	if h.TransactionCount > 0 {
 		c.add("header/transaction_count", "-1", func(b *chain.Blk) { b.Block.TransactionCount-- })
 	}
@@ -416,10 +448,10 @@ func enumHeader(c *collector, s *subject, b *chain.Blk) {
 		return
 	}
 	if h.SequencerAddress != nil { // nil = a block the network hashed with its fallback address
-		c.add("header/sequencer_address", "", func(b *chain.Blk) { b.Block.SequencerAddress = inc(b.Block.SequencerAddress) })
+		c.addV("header/sequencer_address", "", feltHi, func(b *chain.Blk, bump bumpFn) { b.Block.SequencerAddress = bump(b.Block.SequencerAddress) })
 	}
-	c.add("header/timestamp", "+1", func(b *chain.Blk) { b.Block.Timestamp++ })
-	c.add("header/event_count", "+1", func(b *chain.Blk) { b.Block.EventCount++ })
+	c.addU("header/timestamp", "", func(b *chain.Blk, d uint64) { b.Block.Timestamp += d })
+	c.addU("header/event_count", "", func(b *chain.Blk, d uint64) { b.Block.EventCount += d })
 	if !s.poseidon() {
 		return
 	}
@@ -438,27 +470,27 @@ func enumHeader(c *collector, s *subject, b *chain.Blk) {
 		}
 	})
 	if h.L1GasPriceETH != nil {
-		c.add("header/l1_gas_price_wei", "", func(b *chain.Blk) { b.Block.L1GasPriceETH = inc(b.Block.L1GasPriceETH) })
+		c.addV("header/l1_gas_price_wei", "", priceHi, func(b *chain.Blk, bump bumpFn) { b.Block.L1GasPriceETH = bump(b.Block.L1GasPriceETH) })
 	}
 	if h.L1GasPriceSTRK != nil {
-		c.add("header/l1_gas_price_fri", "", func(b *chain.Blk) { b.Block.L1GasPriceSTRK = inc(b.Block.L1GasPriceSTRK) })
+		c.addV("header/l1_gas_price_fri", "", priceHi, func(b *chain.Blk, bump bumpFn) { b.Block.L1GasPriceSTRK = bump(b.Block.L1GasPriceSTRK) })
 	}
 	if h.L1DataGasPrice != nil && h.L1DataGasPrice.PriceInWei != nil {
-		c.add("header/l1_data_gas_price_wei", "", func(b *chain.Blk) {
-			b.Block.L1DataGasPrice.PriceInWei = inc(b.Block.L1DataGasPrice.PriceInWei)
+		c.addV("header/l1_data_gas_price_wei", "", priceHi, func(b *chain.Blk, bump bumpFn) {
+			b.Block.L1DataGasPrice.PriceInWei = bump(b.Block.L1DataGasPrice.PriceInWei)
 		})
 	}
 	if h.L1DataGasPrice != nil && h.L1DataGasPrice.PriceInFri != nil {
-		c.add("header/l1_data_gas_price_fri", "", func(b *chain.Blk) {
-			b.Block.L1DataGasPrice.PriceInFri = inc(b.Block.L1DataGasPrice.PriceInFri)
+		c.addV("header/l1_data_gas_price_fri", "", priceHi, func(b *chain.Blk, bump bumpFn) {
+			b.Block.L1DataGasPrice.PriceInFri = bump(b.Block.L1DataGasPrice.PriceInFri)
 		})
 	}
 	if s.Format == "0.13.4" && h.L2GasPrice != nil { // L2 gas price joined the preimage with 0.13.4
 		if h.L2GasPrice.PriceInWei != nil {
-			c.add("header/l2_gas_price_wei", "", func(b *chain.Blk) { b.Block.L2GasPrice.PriceInWei = inc(b.Block.L2GasPrice.PriceInWei) })
+			c.addV("header/l2_gas_price_wei", "", priceHi, func(b *chain.Blk, bump bumpFn) { b.Block.L2GasPrice.PriceInWei = bump(b.Block.L2GasPrice.PriceInWei) })
 		}
 		if h.L2GasPrice.PriceInFri != nil {
-			c.add("header/l2_gas_price_fri", "", func(b *chain.Blk) { b.Block.L2GasPrice.PriceInFri = inc(b.Block.L2GasPrice.PriceInFri) })
+			c.addV("header/l2_gas_price_fri", "", priceHi, func(b *chain.Blk, bump bumpFn) { b.Block.L2GasPrice.PriceInFri = bump(b.Block.L2GasPrice.PriceInFri) })
 		}
 	}
 }
@@ -475,13 +507,13 @@ func enumTxs(c *collector, s *subject, b *chain.Blk) {
 		// transaction commitment can notice. Without a block hash to check against (TxOnly) only
 		// recomputable hashes are decidable.
 		if !s.TxOnly || (recomputable && s.txHashVerified()) {
-			c.add(pre+"hash", loc, func(b *chain.Blk) {
+			c.addV(pre+"hash", loc, feltHi, func(b *chain.Blk, bump bumpFn) {
 				tx := b.Block.Transactions[i]
-				setTxHash(tx, inc(tx.Hash()))
+				setTxHash(tx, bump(tx.Hash()))
 			})
-			c.add(pre+"hash+receipt_copy", loc, func(b *chain.Blk) {
+			c.addV(pre+"hash+receipt_copy", loc, feltHi, func(b *chain.Blk, bump bumpFn) {
 				tx := b.Block.Transactions[i]
-				nh := inc(tx.Hash())
+				nh := bump(tx.Hash())
 				setTxHash(tx, nh)
 				b.Block.Receipts[i].TransactionHash = nh
 			})
@@ -516,9 +548,9 @@ func enumTxs(c *collector, s *subject, b *chain.Blk) {
 			if *ff.get(tx) == nil {
 				continue
 			}
-			c.add(pre+ff.name, loc, func(b *chain.Blk) {
+			c.addV(pre+ff.name, loc, priceHi, func(b *chain.Blk, bump bumpFn) {
 				p := ff.get(b.Block.Transactions[i])
-				*p = inc(*p)
+				*p = bump(*p)
 			})
 		}
 		for _, sf := range slices {
@@ -537,7 +569,7 @@ func enumTxs(c *collector, s *subject, b *chain.Blk) {
 		if !v3 {
 			continue
 		}
-		c.add(pre+"tip", loc, func(b *chain.Blk) { *v3Tip(b.Block.Transactions[i])++ })
+		c.addU(pre+"tip", loc, func(b *chain.Blk, d uint64) { *v3Tip(b.Block.Transactions[i]) += d })
 		c.add(pre+"nonce_da_mode", loc, func(b *chain.Blk) {
 			n, _ := v3DA(b.Block.Transactions[i])
 			*n ^= 1
@@ -555,16 +587,16 @@ func enumTxs(c *collector, s *subject, b *chain.Blk) {
 				// transactions do not carry (nor commit) them
 				continue
 			}
-			c.add(pre+"resource_bound/"+res.String()+"/max_amount", loc, func(b *chain.Blk) {
+			c.addU(pre+"resource_bound/"+res.String()+"/max_amount", loc, func(b *chain.Blk, d uint64) {
 				m := *v3Bounds(b.Block.Transactions[i])
 				x := m[res]
-				x.MaxAmount++
+				x.MaxAmount += d
 				m[res] = x
 			})
-			c.add(pre+"resource_bound/"+res.String()+"/max_price_per_unit", loc, func(b *chain.Blk) {
+			c.addV(pre+"resource_bound/"+res.String()+"/max_price_per_unit", loc, priceHi, func(b *chain.Blk, bump bumpFn) {
 				m := *v3Bounds(b.Block.Transactions[i])
 				x := m[res]
-				x.MaxPricePerUnit = inc(x.MaxPricePerUnit)
+				x.MaxPricePerUnit = bump(x.MaxPricePerUnit)
 				m[res] = x
 			})
 		}
@@ -623,9 +655,9 @@ func enumReceipts(c *collector, s *subject, b *chain.Blk) {
 		for j, ev := range rc.Events {
 			j := j
 			el := fmt.Sprintf("%s.event[%d]", loc, j)
-			c.add("event/from", el, func(b *chain.Blk) {
+			c.addV("event/from", el, feltHi, func(b *chain.Blk, bump bumpFn) {
 				e := b.Block.Receipts[i].Events[j]
-				e.From = inc(e.From)
+				e.From = bump(e.From)
 			})
 			for _, so := range sliceOps {
 				so := so
@@ -679,18 +711,18 @@ func enumReceipts(c *collector, s *subject, b *chain.Blk) {
 				recount(b.Block)
 			})
 		}
-		c.add("receipt/transaction_hash", loc, func(b *chain.Blk) {
+		c.addV("receipt/transaction_hash", loc, feltHi, func(b *chain.Blk, bump bumpFn) {
 			r := b.Block.Receipts[i]
-			r.TransactionHash = inc(r.TransactionHash)
+			r.TransactionHash = bump(r.TransactionHash)
 		})
 		if rc.Fee != nil {
-			c.add("receipt/actual_fee", loc, func(b *chain.Blk) {
+			c.addV("receipt/actual_fee", loc, priceHi, func(b *chain.Blk, bump bumpFn) {
 				r := b.Block.Receipts[i]
-				r.Fee = inc(r.Fee)
+				r.Fee = bump(r.Fee)
 			})
 		}
-		c.add("receipt/l1_gas_consumed", loc, func(b *chain.Blk) { gasOf(b.Block.Receipts[i]).L1Gas++ })
-		c.add("receipt/l1_data_gas_consumed", loc, func(b *chain.Blk) { gasOf(b.Block.Receipts[i]).L1DataGas++ })
+		c.addU("receipt/l1_gas_consumed", loc, func(b *chain.Blk, d uint64) { gasOf(b.Block.Receipts[i]).L1Gas += d })
+		c.addU("receipt/l1_data_gas_consumed", loc, func(b *chain.Blk, d uint64) { gasOf(b.Block.Receipts[i]).L1DataGas += d })
 		if rc.Reverted {
 			c.add("receipt/reverted->succeeded", loc, func(b *chain.Blk) { b.Block.Receipts[i].Reverted = false })
 			c.add("receipt/revert_reason", loc, func(b *chain.Blk) { b.Block.Receipts[i].RevertReason += "!" })
@@ -703,9 +735,9 @@ func enumReceipts(c *collector, s *subject, b *chain.Blk) {
 		for j, m := range rc.L2ToL1Message {
 			j := j
 			ml := fmt.Sprintf("%s.message[%d]", loc, j)
-			c.add("message/from", ml, func(b *chain.Blk) {
+			c.addV("message/from", ml, feltHi, func(b *chain.Blk, bump bumpFn) {
 				m := b.Block.Receipts[i].L2ToL1Message[j]
-				m.From = inc(m.From)
+				m.From = bump(m.From)
 			})
 			c.add("message/to", ml, func(b *chain.Blk) { b.Block.Receipts[i].L2ToL1Message[j].To[19] ^= 1 })
 			for _, so := range sliceOps {
@@ -785,9 +817,9 @@ func enumStateDiff(c *collector, s *subject, b *chain.Blk) {
 		for _, k := range sortedKeys(m) {
 			k := k
 			loc := k.String()
-			c.add("state_diff/"+sec.name+"/change-value", loc, func(b *chain.Blk) {
+			c.addV("state_diff/"+sec.name+"/change-value", loc, feltHi, func(b *chain.Blk, bump bumpFn) {
 				m := sec.get(b.SU.StateDiff)
-				m[k] = inc(m[k])
+				m[k] = bump(m[k])
 			})
 			c.add("state_diff/"+sec.name+"/change-key", loc, func(b *chain.Blk) {
 				m := sec.get(b.SU.StateDiff)
@@ -814,9 +846,9 @@ func enumStateDiff(c *collector, s *subject, b *chain.Blk) {
 		for _, k := range sortedKeys(slots) {
 			k := k
 			loc := a.String() + "[" + k.String() + "]"
-			c.add("state_diff/storage/change-value", loc, func(b *chain.Blk) {
+			c.addV("state_diff/storage/change-value", loc, feltHi, func(b *chain.Blk, bump bumpFn) {
 				m := b.SU.StateDiff.StorageDiffs[a]
-				m[k] = inc(m[k])
+				m[k] = bump(m[k])
 			})
 			c.add("state_diff/storage/change-key", loc, func(b *chain.Blk) {
 				m := b.SU.StateDiff.StorageDiffs[a]
